@@ -846,6 +846,13 @@ def _simple(ctx):
 
 
 # ------------------------------------------------------------------------------------------------ R-C15-5
+def _module_level(module, name):
+    """value of a module-level `name = <expr>` (single definition), else None"""
+    defs = [st.value for st in module.tree.body if isinstance(st, ast.Assign) and len(st.targets) == 1 and
+            isinstance(st.targets[0], ast.Name) and st.targets[0].id == name]
+    return defs[0] if len(defs) == 1 else None
+
+
 def _callee_names(module, func, env):
     """all dotted targets a call's function expression can stand for (through a local alias `t = A if c else B`)"""
     out = []
@@ -856,6 +863,8 @@ def _callee_names(module, func, env):
             rec(e.orelse, depth)
         elif isinstance(e, ast.Name) and e.id in env and depth < 4:
             rec(env[e.id], depth + 1)
+        elif isinstance(e, ast.Name) and depth < 4 and _module_level(module, e.id) is not None:
+            rec(_module_level(module, e.id), depth + 1)
         elif isinstance(e, ast.Call) and (call_name(e) or "") == "getattr" and len(e.args) >= 2 and isinstance(e.args[1], ast.Constant):
             base = _full(module, e.args[0])
             out.append("%s.%s" % (base, e.args[1].value))
